@@ -109,6 +109,7 @@ def run(ctx: Ctx) -> int:
     ok = bool(inner) and root_name(inner[0].args[0]) == "v"
     ctx.oblige("C20.a", ok, cast[0], "the stored value is base_type(v)" if ok else "the stored value is not the base-type cast of the input", fn=new, construct="cast of v")
     vf = ctx.func("typing:restricted_number_type.validation_fn")
+    ctx.expect_locals(vf, ["v", "vv", "check"])
     gv = ctx.cfg(vf)
     castv = [c for c in calls_in(vf) if call_leaf(c) == "_type" and c.args and root_name(c.args[0]) == "v"]
     ctx.need(castv, "restricted number validation_fn: cls._type(v)")
@@ -243,6 +244,7 @@ def run(ctx: Ctx) -> int:
 
     # (iii) language agreement: range
     rs, rd = ctx.func("typing:range_serializer"), ctx.func("typing:range_deserializer")
+    ctx.expect_locals(rd, ["value", "match"])
     templates = [r.value for r in walk_local(rs) if isinstance(r, ast.Return) and isinstance(r.value, ast.JoinedStr)]
     ctx.need(len(templates) == 3, "range_serializer: three f-string templates")
     rxs = [_fstring_regex(t) for t in templates]
@@ -297,6 +299,7 @@ def run(ctx: Ctx) -> int:
 
     # (iii) timedelta: str(timedelta) language (datetime.timedelta.__str__) vs deserializer pattern under re.match
     td = ctx.func("typing:timedelta_deserializer")
+    ctx.expect_locals(td, ["value", "pattern", "match", "kwargs"])
     pats = sorted((s for s in walk_local(td) if isinstance(s, ast.Assign) and root_name(s.targets[0]) == "pattern"), key=lambda s: s.lineno)
     ctx.need(len(pats) == 2 and const_str(pats[0].value) is not None and isinstance(pats[1].value, ast.BinOp) and const_str(pats[1].value.left) is not None and root_name(pats[1].value.right) == "pattern", "timedelta_deserializer: pattern / day prefix")
     base, prefix = const_str(pats[0].value), const_str(pats[1].value.left)
